@@ -801,46 +801,18 @@ func lemmaRangesetSub2(a0, b0, a1, b1, start, end, v int64) (wf0, okWF, okMem bo
 // Stream-count limits at the call sites (property C21): a finished stream is credited to the
 // peer's stream limit only if the peer opened it.
 //
+// The callees of appendStreamFrames are abstracted (havoccalls): each may change the whole heap
+// except the immutable identity fields the assertion speaks about (a stream's id, a connection's
+// side); that no callee writes those two fields is checked on the call graph.
+//
 //@ func (*Conn).appendStreamFrames(c, w, pnum, pto) (r)
+//@   havoccalls except Stream.id, Conn.side
 //@   requires c != nil
 //@   assert at call close: s.id.initiator() != c.side
 //@   loop 1 invariant c != nil
 //@   loop 2 invariant c != nil
 //@   partial nopanic, pre
 //@   noframe
-//
-// The callees of appendStreamFrames are abstracted: each may change the whole heap except the
-// immutable identity fields the assertion speaks about (a stream's id, a connection's side).
-//
-//@ func (*Conn).appendMaxDataFrame(c, w, pnum, pto) (r)
-//@   trusted
-//@   havocs except Stream.id, Conn.side
-//@ func (*Conn).appendStreamFramesPTO(c, w, pnum) (r)
-//@   trusted
-//@   havocs except Stream.id, Conn.side
-//@ func (*Conn).appendMaxStreams(c, w, pnum, pto) (r)
-//@   trusted
-//@   havocs except Stream.id, Conn.side
-//@ func (*Stream).appendInFramesLocked(s, w, pnum, pto) (r)
-//@   trusted
-//@   havocs except Stream.id, Conn.side
-//@ func (*Stream).inUnlockNoQueue(s) (r)
-//@   trusted
-//@   havocs except Stream.id, Conn.side
-//@ func (*Stream).outUnlockNoQueue(s) (r)
-//@   trusted
-//@   havocs except Stream.id, Conn.side
-//@ func (*streamRing).remove(r, s)
-//@   trusted
-//@   havocs except Stream.id, Conn.side
-//@ func (*Conn).queueStreamForSendLocked(c, s, state)
-//@   trusted
-//@   havocs except Stream.id, Conn.side
-//@ func (*atomicBits[streamState]).set(a, v, mask) (r)
-//@   trusted
-//@   havocs except Stream.id, Conn.side
-//@ func (*atomicBits[streamState]).load(a) (r)
-//@   trusted
 
 // ---------------------------------------------------------------------------
 // Transport parameters (property C28): every accepted parameter block has values within the
@@ -874,9 +846,9 @@ func tpInRange(p transportParameters) bool {
 //@   ensures  !pto && len(outunsent) == 0 ==> sendStart == end && size == 0
 //@   ensures  pto && 0 <= start && start <= end ==> size >= 0
 //@   loop 1 invariant -1 <= rangeindex && rangeindex < len(outacked)
-//@ func (*Stream).appendOutFramesLocked(s, w, pnum, pto) (r)
-//@   trusted
-//@   havocs except Stream.id, Conn.side
+//
+// appendOutFramesLocked (contract in verif_c32.go): what it offers to the packet writer stays
+// within the connection window (C20) and respects a local reset (C32).
 
 // ---------------------------------------------------------------------------
 // loss.go: anti-amplification budget (property C27). While the client's address is not validated
